@@ -412,8 +412,8 @@ func c20(r *core.Run) {
 						for _, rf := range *x.Referrers() {
 							switch y := rf.(type) {
 							case *ssa.Return:
-								if fn == cl {
-									return true
+								if fn == cl || fn.Parent() != nil {
+									return true // the update closure of this (or, for a shared helper, another) apply handler
 								}
 								// a helper: its result must be the closure's result in turn
 								all := len(p.CallersOf(fn)) > 0
